@@ -48,6 +48,12 @@ def _check_data_norm(ex, func, args, kwargs, so, node):
         b[names[i]] = a
     b.update(kwargs)
     ex.emit("normalise", node, how="check_data", value=b.get("X"))
+    # what check_data establishes on its returning path: at least min_length rows
+    ml = b.get("min_length")
+    if isinstance(ml, Num) and ml.nf is not None and ml.cond is None:
+        if not hasattr(ex, "established"):
+            ex.established = []
+        ex.established.append(Cond.cmp(">=", lift(N), ml.nf))
     r = Num(sym("X"), (N, Pdim), "float", "frame", meta={"normalised": True, "foreign": True})
     ex.atom_shapes[Atom("sym", "X").key] = (N, Pdim)
     return r
